@@ -295,7 +295,14 @@ def evaluate_overlap(case, r):
                 return h[4]
         return c["before"][0]
     for c in cmds:
-        if c["name"] in ("initialize", "cleanup") and c.get("outcome") == "ok":
+        if c["name"] not in ("initialize", "cleanup"):
+            continue
+        label = "%s#%d" % (c["name"], c["index"])
+        own_changes = any(h[0] == "st" and (h[3] or "").startswith(label)
+                          for h in H[c["invoke_pos"]:c.get("return_pos", len(H))])
+        if c.get("outcome") == "ok" or own_changes:
+            # (a command that changed the state was admitted, whatever it
+            # finally returned)
             adm = admission_state(c)
             if c["name"] == "initialize" and adm in ("STARTING", "STARTED") \
                     and c["before"][0] in ("STARTING", "STARTED"):
@@ -565,17 +572,6 @@ def execute(case):
 def known_finding(finding, H):
     """Objective history predicates of the open findings (DESIGN §3); each
     explains only the listed check id."""
-    if finding[0] in ("ended-not-reported", "stream-grammar"):
-        # H2: end_replication() called from a handler that runs inside step()
-        for h in H:
-            if h[0] == "cmd" and h[2] == "end_replication" and h[3] == "invoke" \
-                    and len(h) > 7 and h[6] == "handler" \
-                    and (h[7] or "").startswith("step#"):
-                msg = finding[1]
-                if finding[0] == "ended-not-reported" or "after END_REPLICATION" in msg \
-                        or "STOP" in msg:
-                    return "H2"
-        return None
     if finding[0] == "stopping-after-end":
         # H1: a stop() that passed its precondition check before
         # END_REPLICATION was notified fires STOPPING after it
